@@ -81,6 +81,7 @@ type HarnessResult struct {
 	LockOrders map[string]bool
 	Assumes    int
 	Witnesses  []*Violation
+	FeasUnknown int
 }
 
 func newHarnessResult(spec *HarnessSpec) *HarnessResult {
@@ -243,7 +244,7 @@ func runHarness(L *Loaded, spec *HarnessSpec, opts *Options, nworkers int) *Harn
 					return
 				}
 				R.mu.Lock()
-				over := R.Paths >= maxPaths
+				over := R.Paths >= maxPaths || R.Outcomes["unwind"]+R.Outcomes["abort"] > 200
 				if over {
 					R.Truncated = true
 				}
@@ -354,7 +355,8 @@ func (in *Interp) runPath(entry *ssa.Function, prefix []int, R *HarnessResult) {
 		R.LockOrders[k] = true
 	}
 	if in.unknownBranch > 0 {
-		R.Unknowns["feasibility query unknown (branch kept)"] += in.unknownBranch
+		// keeping a branch whose feasibility is unknown only over-approximates the explored paths (sound); it is reported, not fatal
+		R.FeasUnknown += in.unknownBranch
 	}
 	if in.opts.Verbose {
 		fmt.Fprintf(os.Stderr, "  path %v -> %s (%d steps)\n", in.decisions, outcome, in.steps)
